@@ -362,12 +362,18 @@ class Workspace(AbstractContextManager):
         recovered_entity = None
 
         if "Object Type ID" in attributes:
+            type_uid = attributes.pop("Object Type ID")
+            try:  # use the stored attributes of the type (name, description)
+                entity_type = self.fetch_type(uuid.UUID(str(type_uid)), "Object")
+            except KeyError:
+                entity_type = {"uid": type_uid}
+
             recovered_entity = self.create_entity(
                 ObjectBase,
                 save_on_creation=False,
                 **{
                     "entity": attributes,
-                    "entity_type": {"uid": attributes.pop("Object Type ID")},
+                    "entity_type": entity_type,
                 },
             )
 
